@@ -53,7 +53,8 @@ ASSUMPTIONS = [
     "a request is 'in a form the link-layer interface accepts' iff netqasm.qlink_compat.request_to_qlink_1_0 converts it",
 ]
 PROBES = ["type-K", "type-M", "type-R", "role-create", "role-recv", "max_time-set", "rotations-set", "named-basis",
-          "random-basis-set", "with-info", "keep-sequential-post-routine", "request-refused-by-stack", "pairs>=2", "two-calls-same-socket", "three-remote-nodes"]
+          "random-basis-set", "with-info", "keep-sequential-post-routine", "request-refused-by-stack", "pairs>=2", "two-calls-same-socket", "three-remote-nodes",
+          "min-fidelity-constraint", "min-fidelity-retried"]
 
 GHOSTS = {"g7": 7, "g8": 8, "g9": 9}
 KINDS = ["create_keep", "create_keep_info", "create_measure", "create_rsp", "recv_keep", "recv_keep_info",
@@ -105,6 +106,15 @@ def gen_calls(ch: Choices, avoid: set, calm: bool) -> List[Dict[str, Any]]:
                 c["random_basis_local"] = ch.pick([b.name for b in RandomBasis])
                 if kind == "create_measure" and ch.flag(1, 2, "rbr"):
                     c["random_basis_remote"] = ch.pick([b.name for b in RandomBasis])
+        if kind in ("create_keep", "recv_keep", "create_rsp", "recv_rsp") and not calm and "min-fidelity-retries" not in avoid \
+                and ch.flag(1, 5, "minfid"):
+            # a minimum-fidelity constraint: the SDK re-tries the request while the link reports the pairs as too slow; the
+            # handles must then read the LAST attempt's responses (the last attempt is never too slow here: what happens
+            # when every attempt fails is C09's recorded finding)
+            tries = 1 + ch.draw(3, "tries")
+            slow = [ch.flag(1, 2, "slow") for _ in range(tries)]
+            slow[-1] = False
+            c["minfid"] = {"fid": 50 + ch.draw(51, "fid"), "tries": tries, "attempts": slow.index(False) + 1}
         calls.append(c)
     # sequential keeps go last: their handle occupies the lowest free ID without the qubit staying allocated, and the
     # plain receive paths' corrections address virtual qubit 0 (C10's recorded finding) -- which must then exist
@@ -221,7 +231,37 @@ def run(ch: Choices, opts: Dict[str, Any]) -> Dict[str, Any]:
         for k in ("random_basis_local", "random_basis_remote"):
             if k in c:
                 kw[k] = RandomBasis[c[k]]
+        kw.update(mf_kw(c))
         return kw
+
+    def mf_kw(c: Dict[str, Any]) -> Dict[str, Any]:
+        mf = c.get("minfid")
+        return {"min_fidelity_all_at_end": mf["fid"], "max_tries": mf["tries"]} if mf else {}
+
+    def mf_plans(c: Dict[str, Any]) -> List[Optional[List[int]]]:
+        """The generation durations the link reports, per attempt of this call (None: whatever the link draws)."""
+        mf = c.get("minfid")
+        if not mf:
+            return [None]
+        maxt = 100_000 - mf["fid"] * 900     # the documented conversion of the fidelity bound into a duration
+        out: List[Optional[List[int]]] = []
+        for a in range(mf["attempts"]):
+            last = maxt + 1 + ch.draw(3, "over") if a < mf["attempts"] - 1 else max(0, maxt - ch.draw(3, "under"))
+            out.append([ch.draw(2 * maxt, "dur") for _ in range(c["number"] - 1)] + [last])
+        return out
+
+    create_plans: Dict[int, List[Optional[List[int]]]] = {}     # purpose id -> plans of the create requests, in issue order
+
+    def goodness(job, k):
+        if job.get("request") is None:
+            pl = job.get("tag")
+        else:
+            if "plan" not in job:
+                fifo = create_plans.get(job["purpose_c"])
+                job["plan"] = fifo.pop(0) if fifo else None
+            pl = job["plan"]
+        return None if pl is None or k >= len(pl) else pl[k]
+    link.goodness_override = goodness
 
     def make_post(conn, n):
         outcomes = conn.new_array(n)
@@ -276,14 +316,14 @@ def run(ch: Choices, opts: Dict[str, Any]) -> Dict[str, Any]:
                 elif kind == "create_rsp":
                     r = ("measure", s.create_rsp(**kw), None)
                 elif kind == "recv_keep":
-                    r = ("qubits", s.recv_keep(number=c["number"]), None)
+                    r = ("qubits", s.recv_keep(number=c["number"], **mf_kw(c)), None)
                 elif kind == "recv_keep_info":
                     q, info = s.recv_keep_with_info(number=c["number"])
                     r = ("qubits", q, info)
                 elif kind == "recv_measure":
                     r = ("measure", s.recv_measure(number=c["number"]), None)
                 elif kind == "recv_rsp":
-                    r = ("qubits", s.recv_rsp(number=c["number"]), None)
+                    r = ("qubits", s.recv_rsp(number=c["number"], **mf_kw(c)), None)
                 else:
                     q, info = s.recv_rsp_with_info(number=c["number"])
                     r = ("qubits", q, info)
@@ -293,12 +333,21 @@ def run(ch: Choices, opts: Dict[str, Any]) -> Dict[str, Any]:
                 fr = traceback.extract_tb(e.__traceback__)[-1]
                 raise Violation("sdk", f"sdk-exception|{type(e).__name__}|{fr.name}|{kind}", {"call": c, "error": str(e)[:300], **sample})
             results.append(r)
+            plans = mf_plans(c)
+            if c.get("minfid"):
+                bump(probes, "min-fidelity-constraint")
+                if len(plans) > 1:
+                    bump(probes, "min-fidelity-retried")
+                    bump(faults, "link-reports-slow-generation", len(plans) - 1)
+            if kind.startswith("create"):
+                create_plans.setdefault(pfun(c["sock"], GHOSTS[c["peer"]]), []).extend(plans)
             if kind.startswith("recv"):
                 tp = {"recv_keep": RequestType.K, "recv_keep_info": RequestType.K, "recv_measure": RequestType.M,
                       "recv_rsp": RequestType.R, "recv_rsp_info": RequestType.R}[kind]
                 c["job_create_id"] = None
-                link.submit(creator=GHOSTS[c["peer"]], receiver=0, purpose_c=c["sock"] + 10, purpose_r=c["sock"], tp=tp,
-                            number=c["number"])
+                for pl in plans:
+                    link.submit(creator=GHOSTS[c["peer"]], receiver=0, purpose_c=c["sock"] + 10, purpose_r=c["sock"], tp=tp,
+                                number=c["number"], tag=pl)
             bump(probes, "role-" + ("create" if kind.startswith("create") else "recv"))
             bump(probes, "type-" + ("K" if "keep" in kind else ("M" if "measure" in kind else "R")))
             if c["number"] >= 2:
@@ -351,7 +400,7 @@ def run(ch: Choices, opts: Dict[str, Any]) -> Dict[str, Any]:
     conn = state["conn"]
 
     # ---- request side ---------------------------------------------------------
-    creates = [c for c in calls if c["kind"].startswith("create")]
+    creates = [c for c in calls if c["kind"].startswith("create") for _ in range((c.get("minfid") or {}).get("attempts", 1))]
     puts = node.stack.puts
     if len(puts) != len(creates):
         raise Violation("request", "request|count", {"puts": len(puts), "creates": len(creates), **sample})
@@ -401,7 +450,8 @@ def run(ch: Choices, opts: Dict[str, Any]) -> Dict[str, Any]:
     for c, (rk, handles, infos) in zip(calls, state["results"]):
         role = "create" if c["kind"].startswith("create") else "recv"
         key = (role, GHOSTS[c["peer"]], pfun(c["sock"], GHOSTS[c["peer"]]))
-        off = cursor.get(key, 0)
+        att = (c.get("minfid") or {}).get("attempts", 1)
+        off = cursor.get(key, 0) + (att - 1) * c["number"]      # a re-tried request: the handles read the last attempt
         cursor[key] = off + c["number"]
         resp = by_key.get(key, [])[off:off + c["number"]]
         if len(resp) != c["number"]:
